@@ -184,6 +184,49 @@ func c14ConvertTo(p *Program, r *Report, fn *types.Func) {
 			}
 		}
 	}
+	// typed nil slices and maps: every non-pointer slice/map clause, run with the source fixed to
+	// the nil value of that type, must yield null and no error
+	srcTypes, _ := switchClauses(p, fn)
+	for _, ct := range srcTypes {
+		switch ct.Underlying().(type) {
+		case *types.Slice, *types.Map:
+		default:
+			continue
+		}
+		in2 := newInterp(p, &effHooks{})
+		c14Setup(in2, fn)
+		_, a2 := paramVals(fn)
+		a2[0] = Val{K: KNil, T: ct, DynT: ct}
+		outs2 := in2.RunFunc(fn, nil, a2, nil)
+		key := fmt.Sprintf("%s nil %s", fn.Name(), types.TypeString(ct, relQual))
+		bad := ""
+		if len(in2.Undecided) > 0 {
+			bad = "undecided: " + strings.Join(in2.Undecided, "; ")
+		}
+		for _, o := range outs2 {
+			if o.IsErr == 1 {
+				bad = fmt.Sprintf("a nil %s source yields an error instead of a null value", types.TypeString(ct, relQual))
+				continue
+			}
+			if wasNilIdx >= 0 && len(o.Ret) > wasNilIdx {
+				if b, ok := in2.resolve(o.Ret[wasNilIdx], o.St).isBool(); !ok || !b {
+					bad = fmt.Sprintf("a nil %s source is not reported as nil", types.TypeString(ct, relQual))
+				}
+			} else if wasNilIdx < 0 && len(o.Ret) > 0 {
+				if v := in2.resolve(o.Ret[0], o.St); v.K != KNil {
+					bad = fmt.Sprintf("a nil %s source does not produce a null value (result %v): it is encoded as an empty value", types.TypeString(ct, relQual), v)
+				}
+			}
+		}
+		if len(outs2) == 0 && bad == "" {
+			bad = "no path"
+		}
+		if bad != "" {
+			r.Fail("nil-source", key, fn.Pos(), "%s", bad)
+		} else {
+			r.OKf("nil-source", key, fn.Pos(), "nil %s => null, no error", types.TypeString(ct, relQual))
+		}
+	}
 	if !sawNilClause {
 		r.Fail("nil-source", fn.Name()+" case nil", fn.Pos(), "%s has no `case nil` clause: an untyped nil source is rejected instead of encoded as NULL", fn.Name())
 	} else {
